@@ -572,4 +572,79 @@ theorem sameIds_sound (impl spec : List Nat) (h : sameIds impl spec = true) : im
   simp only [sameIds, beq_iff_eq, sortN] at h
   exact (List.mergeSort_perm impl _).symm.trans (h ▸ List.mergeSort_perm spec _)
 
+
+/-! ### the assignment returned by reconstruct is the merge of the query and the returned entries, in order -/
+
+def mergeAll (f0 : List Nat) (ents : List Entry) : List Nat := ents.foldl (fun f e => assign f e.2) f0
+
+def FInv (f0 : List Nat) (s : RState) : Prop := s.f = mergeAll f0 s.entries
+
+theorem FInv_step {f0 : List Nat} {s : RState} (h : FInv f0 s) (e : Entry) (d : Bool) :
+    FInv f0 { f := assign s.f e.2, entries := s.entries ++ [e], done := d } := by
+  unfold FInv mergeAll at *
+  simp only [List.foldl_append, List.foldl_cons, List.foldl_nil]
+  rw [← h]
+
+theorem scanKeep_finv (F f0 : List Nat) (b : Bucket) (s : RState) (h : FInv f0 s) : FInv f0 (scanKeep F b s) := by
+  induction b generalizing s with
+  | nil => exact h
+  | cons e r ih =>
+    simp only [scanKeep]
+    split
+    · exact ih _ (FInv_step h e true)
+    · exact ih _ h
+
+theorem scanRemove_finv (F f0 : List Nat) (fuel : Nat) (pre rest : List Entry) (s : RState) (h : FInv f0 s) :
+    FInv f0 (scanRemove F fuel pre rest s).2 := by
+  induction fuel generalizing pre rest s with
+  | zero => exact h
+  | succ fuel ih =>
+    cases rest with
+    | nil => exact h
+    | cons e r =>
+      simp only [scanRemove]
+      split
+      · cases hl : r.getLast? with
+        | none => exact FInv_step h e true
+        | some l => exact ih _ _ _ (FInv_step h e true)
+      · exact ih _ _ _ h
+
+theorem reconValues_finv (F f0 : List Nat) (remove : Bool) (o : Nat) (vs : List Nat) (keys : List (List Bucket)) (s : RState)
+    (orc : List Nat) (h : FInv f0 s) : FInv f0 (reconValues F remove o vs keys s orc).2.1 := by
+  induction vs generalizing keys s orc with
+  | nil => exact h
+  | cons v vs ih =>
+    cases remove with
+    | true =>
+      have hstep := scanRemove_finv F f0 ((shuffle orc (bucket keys o v)).1.length + 1) [] (shuffle orc (bucket keys o v)).1 s h
+      simp only [reconValues, if_true]
+      split
+      · exact hstep
+      · exact ih _ _ _ hstep
+    | false =>
+      have hstep := scanKeep_finv F f0 (shuffle orc (bucket keys o v)).1 s h
+      simp only [reconValues, Bool.false_eq_true, if_false]
+      split
+      · exact hstep
+      · exact ih _ _ _ hstep
+
+theorem reconFactors_finv (F f0 : List Nat) (remove : Bool) (os : List Nat) (keys : List (List Bucket)) (s : RState)
+    (orc : List Nat) (h : FInv f0 s) : FInv f0 (reconFactors F remove os keys s orc).2.1 := by
+  induction os generalizing keys s orc with
+  | nil => exact h
+  | cons o os ih =>
+    simp only [reconFactors]
+    split
+    · exact ih _ _ _ (show FInv f0 { (reconValues F remove o [s.f.getD o 0] keys { s with done := true } orc).2.1 with done := false }
+        from reconValues_finv F f0 remove o _ keys { s with done := true } orc h)
+    · exact ih _ _ _ (show FInv f0 { (reconValues F remove o (shuffle orc (List.range (F.getD o 0))).1 keys { s with done := false }
+          (shuffle orc (List.range (F.getD o 0))).2).2.1 with done := false }
+        from reconValues_finv F f0 remove o _ keys { s with done := false } _ h)
+
+/-- **the returned Factors** are the space `F` ("unset" everywhere) overwritten by the query and then by the
+    returned entries in the order they were collected — for every shuffle outcome -/
+theorem reconstruct_factors (t : FT) (q : PF) (remove : Bool) (orc : List Nat) :
+    (t.reconstruct q remove orc).2.2 = mergeAll (assign t.F q) (t.reconstruct q remove orc).2.1 :=
+  reconFactors_finv t.F (assign t.F q) remove _ t.keys { f := assign t.F q, entries := [], done := false } _ rfl
+
 end AITB.Trie
